@@ -65,7 +65,7 @@ def run(ctx):
                 sc["extras"] = [dict(m) for m in rng.choice(SIGPLANS)]
                 fam.append(sc)
             cases.append((len(cases), fam))
-    if ctx.thorough and not ctx.replay:
+    if ctx.fixtures and not ctx.replay:
         from harness import fixtures
         sl = fixtures.slices("quantised")
         for a, b in zip(sl, sl[1:]):
